@@ -24,6 +24,9 @@ def match_unwind_for(seq, single=5):
     follow each other (end-to-end equalities over consecutive sweeps are what the solver cannot induct over; the
     inductive cubes cover unbounded iteration counts)"""
     m = seq.count('M')
+    if len(seq) >= 4:
+        # depth-4 histories: the state a late match starts from is already a deep ite term
+        return min(single, 3) if m <= 1 else 2
     return single if m <= 1 else (3 if m == 2 else 2)
 
 
